@@ -275,6 +275,32 @@ def _history(E, length):
     return 'ok'
 
 
+NAME_CATALOGUE = [
+    ('T^{-1}', ['T^{-1}'], [], []), ("U_{-2}^{-3}'(y)", ['y'], ["U_{-2}^{-3}'"], []), ('[a^{-b},1]', ['a^{-b}'], [], []), ('2^A^{-1}', ['A^{-1}'], [], []),
+    ("x_{1}^{2}'+x_{1}^{2}", ["x_{1}^{2}'", 'x_{1}^{2}'], [], []), ("f'(x')+f(x)", ["x'", 'x'], ["f'", 'f'], []), ('a_1_2*a_1', ['a_1_2', 'a_1'], [], []),
+    ('2k*k+3%', ['k'], [], ['k', '%']), ('x^{a}+x^a', ['x^{a}', 'x', 'a'], [], []), ('T_{a}^{b}_{c}' if False else 'T_{-a}^{b}', ['T_{-a}^{b}'], [], []),
+    ("g_{0}''(t_{-1})", ['t_{-1}'], ["g_{0}''"], []), ('sin(cos(x))^tan', ['x', 'tan'], ['sin', 'cos'], []), ('1e3e', [], [], ['e']), ('e1+1e1', ['e1'], [], []),
+    ('A^{-1}^{-1}' if False else 'A^{-1}^2', ['A^{-1}'], [], []), ('[f(x),g,h(1)]', ['x', 'g'], ['f', 'h'], []), ('x_{10}^{-10}', ['x_{10}^{-10}'], [], []),
+]
+
+
+def h_name_catalogue(E, idx):
+    """names with every documented decoration (negative lower AND upper tensor indices, primes, subscripts, suffix look-alikes), longer than the strings
+    the symbolic harness reaches: exactly the listed variables, functions and suffixes are reported, by the shared parser and by a fresh one"""
+    import mitxgraders.helpers.calc.expressions as X
+    from mitxgraders.helpers.calc.exceptions import CalcError
+    expr, vs, fs, ss = NAME_CATALOGUE[idx]
+    for parser in (X.PARSER, X.MathParser()):
+        try:
+            r = parser.parse(expr)
+        except CalcError as e:
+            E.check('documented-name-forms-are-parsed', False)
+            return type(e).__name__
+        E.check('documented-name-forms-are-parsed', True)
+        E.check('names-exact', (sorted(r.variables_used), sorted(r.functions_used), sorted(r.suffixes_used)) == (sorted(vs), sorted(fs), sorted(ss)))
+    return 'ok'
+
+
 GRADED = ['sin(f)+f', 'f(x)', 'x+y', 'sin(x)+0*cos(x)', '2k+k', 'f(x)+sin(x\t)', '[x,f(y)]', 'f(x']
 
 
@@ -334,6 +360,8 @@ def harnesses(tier):
         hs.append(Harness(pname(base, **params), fn, tuple(params.values()), FUNCS, bounds, STUBS, **kw))
     add(h_names, 'names', dict(N=5 if T else 4), 'all Unicode strings up to that length', max_paths=400000 if T else None, validate=True)
     add(h_inductive, 'inductive_step', {}, 'arbitrary cache subset x 7 inputs x <=2 fired actions over 5 names x 3 grammar outcomes', validate=False)
+    for i in range(len(NAME_CATALOGUE)):
+        add(h_name_catalogue, 'name_catalogue', dict(i=i), NAME_CATALOGUE[i][0], validate=False)
     add(h_graded_history, 'graded_history', dict(length=3 if T else 2), 'all sequences of grader calls (4 grader configurations x 8 strings) on the shared PARSER', validate=False)
     add(h_history, 'history', dict(length=4 if T else 3), 'all sequences over 17 strings (incl. tab / newline / no-break-space twins) on the shared PARSER', validate=False)
     return hs
